@@ -2,6 +2,7 @@ import Driver.Util
 import SonicModel.Impl.Simd
 import SonicModel.Impl.Block
 import SonicModel.Impl.StrSkip
+import SonicModel.Impl.Space
 namespace Driver
 open Sonic Sonic.Simd
 
@@ -55,6 +56,22 @@ def c17 (args : List String) : String :=
       match Sonic.StrSkip.skipString (t.size / 32 + 1) t.toList 0#32 0 false with
       | some (n, e) => s!"r={n} esc={if e then 1 else 0}"
       | none => "r=none"
+    | none => "bad-args"
+  | ["sp", hd, ops] =>
+    let data : Option Buf := unhex hd
+    match data with
+    | some buf =>
+      let step (acc : Sonic.Space.St × List String) (op : Char) : Sonic.Space.St × List String :=
+        let (st, out) := acc
+        let (r, st') : Option UInt8 × Sonic.Space.St :=
+          if op == 's' then Sonic.Space.skipSpace buf st
+          else if op == 'p' then Sonic.Space.skipSpacePeek buf st
+          else if '1' ≤ op && op ≤ '9' then (none, Sonic.Space.eat buf st (op.toNat - 48))
+          else (none, st)
+        let b := match r with | some c => toString c.toNat | none => "-"
+        (st', out ++ [s!"{b}:{st'.idx}:{hexNat17 st'.bits}:{st'.start}"])
+      let (_, out) := ops.toList.foldl step (Sonic.Space.init, [])
+      "t=" ++ ";".intercalate out
     | none => "bad-args"
   | ["d2i", a, need] => match unhex a, need.toNat? with
     | some a, some need =>
